@@ -19,6 +19,8 @@ def check(run):
     ief.run_ief(run, 'C11', roots, triage=triage.IEF, noreturn=('self.fail',))
     run.floor('C11-IEF', run.units['ief_functions_checked'], 100)
     exc(run, p)
+    from . import gentest_script
+    gentest_script.run_rule(run, p, 'C11')
     template(run, p, 'C11')
     effects(run, p)
     mustemit(run, p, 'C11-MUSTEMIT')
@@ -37,6 +39,16 @@ def check(run):
     run.floors = [(('C11-SPLIT' if r == 'C04-SPLIT' else r), c, m) for r, c, m in run.floors]
     run.assume('file names of scripts and encodings are made of characters that need no escaping in Python source')
     run.trust('repr() of a str is a valid Python expression denoting it; os.path functions are pure')
+
+
+def backed(run, rid, key, ok, msg, backing, **kw):
+    """An obligation decided from the shape of the code, backed by one decided by evaluation: when the shape is not the one the
+    structural rule knows, the evaluation rule decides alone (a note records it) - a violation needs the evaluation to fail too,
+    or the structural rule to recognise a wrong shape while the evaluation grid happens not to reach it."""
+    if ok or not all(o.ok for o in run.obs if o.rule == backing) or not any(o.rule == backing for o in run.obs):
+        run.ob(rid, key, ok, msg, **kw)
+    else:
+        run.note(rid, 'shape not recognised, decided by %s alone: %s' % (backing, msg[:160]), fn=kw.get('fn'), node=kw.get('node'))
 
 
 # ---------------------------------------------------------------------------
@@ -226,21 +238,20 @@ def template(run, p, pid):
         vc = value_class(p, ws, given[key])
         for c in sorted(cs):
             ok = vc in NEED[c]
-            run.ob(rid, 'HEADER:%s' % key, ok,
-                   'header slot %s is %s context and receives %s (%s)' % (key, c, norm(given[key])[:50], vc), fn=ws, node=given[key])
+            backed(run, rid, 'HEADER:%s' % key, ok,
+                   'header slot %s is %s context and receives %s (%s)' % (key, c, norm(given[key])[:50], vc), pid + '-SCRIPT', fn=ws, node=given[key])
     # test_def slots: checked at its call sites in write_script
     n = 0
-    for x in p.own_nodes(ws):
-        if isinstance(x, ast.Call) and getattr(x.func, 'id', '') == 'test_def' and len(x.args) >= 4:
-            n += 1
-            name, actual, kind, ref = x.args[:4]
-            nc = 'CONST' if isinstance(name, ast.Constant) else _name_class(p, ws, name)
-            run.ob(rid, 'test_def:%s:name' % norm(name)[:20], nc in ('CONST', 'IDENT'),
-                   'test method name %s is %s' % (norm(name), nc), fn=ws, node=x)
-            for role, a in (('actual', actual), ('reference', ref)):
-                ac = 'CONST' if isinstance(a, ast.Constant) else _name_class(p, ws, a)
-                run.ob(rid, 'test_def:%s:%s' % (norm(name)[:20], role), ac in ('CONST', 'PY_EXPR'),
-                       '%s argument %s is %s' % (role, norm(a), ac), fn=ws, node=x)
+    from .c12 import test_def_sites
+    for x, name, actual, _aclo, ref, _rclo in test_def_sites(p, ws):
+        n += 1
+        nc = 'CONST' if isinstance(name, ast.Constant) else _name_class(p, getattr(name, '_ctx', ws), name)
+        backed(run, rid, 'test_def:%s:name' % norm(name)[:20], nc in ('CONST', 'IDENT'),
+               'test method name %s is %s' % (norm(name), nc), pid + '-SCRIPT', fn=ws, node=x)
+        for role, a in (('actual', actual), ('reference', ref)):
+            ac = 'CONST' if isinstance(a, ast.Constant) else _name_class(p, getattr(a, '_ctx', ws), a)
+            backed(run, rid, 'test_def:%s:%s' % (norm(name)[:20], role), ac in ('CONST', 'PY_EXPR'),
+                   '%s argument %s is %s' % (role, norm(a), ac), pid + '-SCRIPT', fn=ws, node=x)
     td = p.fn(GT + 'test_def')
     for x in ast.walk(td.node):
         if isinstance(x, ast.BinOp) and isinstance(x.op, ast.Mod) and isinstance(x.left, ast.Constant) and isinstance(x.left.value, str) \
@@ -248,27 +259,27 @@ def template(run, p, pid):
             arg = x.right
             vc = 'PY_EXPR' if isinstance(arg, ast.Call) and getattr(arg.func, 'id', '') in ('quote_raw', 'repr') else \
                 ('PY_EXPR' if isinstance(arg, ast.Name) and arg.id == 's' else 'RAW')
-            run.ob(rid, 'test_def:list-item:%s' % norm(arg)[:20], vc == 'PY_EXPR', 'list item `%s` is written as %s' % (norm(x)[:40], vc), fn=td, node=x)
+            backed(run, rid, 'test_def:list-item:%s' % norm(arg)[:20], vc == 'PY_EXPR', 'list item `%s` is written as %s' % (norm(x)[:40], vc), pid + '-SCRIPT', fn=td, node=x)
     qr = p.fn(GT + 'quote_raw')
-    rets = [r for r in ast.walk(qr.node) if isinstance(r, ast.Return)]
-    gm = GuardMap(qr.node)
-    okq = True
-    for r in rets:
-        v = r.value
-        if isinstance(v, ast.Call) and getattr(v.func, 'id', '') == 'repr':
-            continue
-        if isinstance(v, ast.BinOp) and isinstance(v.left, ast.Constant):
-            m = re.match(r"^r('''|\"\"\"|'|\")%s\1$", v.left.value)
-            if not m:
+    bad = []
+    nq = 0
+    bodies = ['abc', "it's", 'say "hi"', "both ' and \"", "a'''b\"c", "all ''' and \"\"\" here", 'back\\slash \\d+\\.', 'caf\u00e9 \u2192',
+              '\\N{x} \\u12 \\x', "'", '"', "'''", '\"\"\"', '%s %d', '{0}']
+    for body in bodies:
+        for text in ('^' + body + '$', body + ' end'):
+            try:
+                out = Interp(p).call(qr, [text])
+            except Unsupported as e:
+                raise AnalysisError('quote_raw is not evaluable: %s' % e)
+            nq += 1
+            try:
+                okq = ast.literal_eval(out) == text
+            except (SyntaxError, ValueError):
                 okq = False
-                continue
-            delim = m.group(1)
-            ch = gm.chain(r) or ()
-            okq = okq and any(g.kind == 'if' and g.pol and isinstance(g.test, ast.Compare) and isinstance(g.test.ops[0], ast.NotIn)
-                              and isinstance(g.test.left, ast.Constant) and g.test.left.value == delim for g in ch)
-        else:
-            okq = False
-    run.ob(rid, 'quote_raw', okq and len(rets) >= 3, 'quote_raw picks a raw-string delimiter that does not occur in the text, else repr()', fn=qr)
+            if not okq:
+                bad.append((text, out))
+    run.ob(rid, 'quote_raw', not bad, 'quote_raw(text) is a Python literal denoting the text, for %d patterns holding quotes of every kind, '
+           'backslashes and escape-like sequences%s' % (nq, '' if not bad else '; not for %r, written as %s' % bad[0]), fn=qr)
     run.floor(rid, len(ctxs) + n, 12)
 
 
@@ -361,8 +372,8 @@ def mustemit(run, p, rid):
             call, actual = sites[0]
             ch = [g for g in gm.chain(call) or () if g.kind == 'if']
             ok = len(ch) == 1 and ch[0].pol and norm(ch[0].test) == flag and actual == var
-        run.ob(rid, 'write_script:%s' % stream, ok, 'the %s test is written once, under exactly [%s], on %s' % (stream, flag, var), fn=ws,
-               node=sites[0][0] if sites else None)
+        backed(run, rid, 'write_script:%s' % stream, ok, 'the %s test is written once, under exactly [%s], on %s' % (stream, flag, var),
+               'C12-SCRIPT' if rid.startswith('C12') else 'C11-SCRIPT', fn=ws, node=sites[0][0] if sites else None)
     run.floor(rid, 3, 3)
 
 
